@@ -190,6 +190,7 @@ def main : IO Unit := jsonDriver fun j => do
         ("depth", toJson c.depth),
         ("outcome", Json.str (outcomeName oc)),
         ("trace", Json.arr (c.trace.reverse.map fun v => toJson [toJson v.1, toJson v.2.1, toJson v.2.2]).toArray),
+        ("recognised", toJson (!s.hasUnknown)),
         ("balanced", toJson (Skel.balanced q s)),
         ("opens", toJson (Skel.opens q s)),
         ("closes", toJson (Skel.closes q s))]
@@ -197,7 +198,7 @@ def main : IO Unit := jsonDriver fun j => do
     let entry : String ← getAs j "entry"
     match Gen.C13.allDefs.find? (fun d => d.1 == entry) with
     | none => throw s!"no skeleton named {entry}"
-    | some (_, s) => return Json.mkObj [("term", stmtJson s)]
+    | some (_, s) => return Json.mkObj [("term", stmtJson s), ("recognised", toJson (!s.hasUnknown))]
   | "sites" =>
     return Json.mkObj [
       ("sites", toJson Gen.C13.siteNames),
